@@ -125,6 +125,15 @@ pub fn programs(tier: Tier) -> Vec<Prog> {
       v.push(Prog { text: format!("x := {{{}}}", items.iter().enumerate().map(|(k, s)| format!("{}: {}", s, k)).collect::<Vec<_>>().join(", ")), family: format!("container-constant:map:{}", n), must_run: false });
     } }
     for n in 1..=4usize { v.push(Prog { text: format!("x := {{{}}}", (1..=n).map(|k| k.to_string()).collect::<Vec<_>>().join(", ")), family: format!("container-constant:number-set:{}", n), must_run: false }); }
+    // containers of every element kind: the element-kind tag of a set / table column / matrix-in-a-tuple constant is decoded by one arm per kind
+    for (k, a, b, c) in [("u8", "1u8", "2u8", "3u8"), ("u16", "1u16", "2u16", "3u16"), ("u32", "1u32", "2u32", "3u32"), ("u64", "1u64", "2u64", "3u64"), ("i8", "1<i8>", "2<i8>", "3<i8>"), ("i16", "1<i16>", "2<i16>", "3<i16>"), ("i32", "1<i32>", "2<i32>", "3<i32>"), ("i64", "0x1", "0x2", "0x3"),
+      ("f32", "1.5<f32>", "2.5<f32>", "3.5<f32>"), ("f64", "1.5", "2.5", "3.5"), ("r64", "1/2", "1/3", "3/4"), ("c64", "1+2i", "3-4i", "0+1i"), ("bool", "true", "false", "true"), ("string", "\"p\"", "\"qq\"", "\"\"")] {
+      v.push(Prog { text: format!("x := {{{}, {}, {}}}", a, b, c), family: format!("container-constant:kind-set:{}", k), must_run: false });
+      v.push(Prog { text: format!("x := {{{}}}", a), family: format!("container-constant:kind-set-one:{}", k), must_run: false });
+      v.push(Prog { text: format!("s := {{{}, {}}}\nx := s ∪ {{{}}}", a, b, c), family: format!("container-constant:kind-set-union:{}", k), must_run: false });
+      v.push(Prog { text: format!("x := | v<{}> | {} | {} | {} |", k, a.split('<').next().unwrap_or(a), b.split('<').next().unwrap_or(b), c.split('<').next().unwrap_or(c)), family: format!("container-constant:kind-table:{}", k), must_run: false });
+      v.push(Prog { text: format!("x := {{f: {}, g: {}}}", a, b), family: format!("container-constant:kind-record:{}", k), must_run: false });
+    }
   }
   // (6) class B: may fail, must not lie
   for (nm, t) in [
